@@ -523,7 +523,7 @@ class Executor:
                 q = p.inexact(); yield q, Bool(z3.FreshConst(z3.BoolSort(), 'opq_eq')); return
             raise Unsupported(site + f' eq {a.sort} {b.sort}')
         ords = {ast.Lt: lambda x, y: x < y, ast.LtE: lambda x, y: x <= y, ast.Gt: lambda x, y: x > y, ast.GtE: lambda x, y: x >= y}
-        if a.sort == b.sort and a.sort in ('int', 'dt', 'td'):
+        if a.sort == b.sort and a.sort in ('int', 'dt', 'td', 'real'):
             yield p, Bool(ords[type(op)](a.t, b.t)); return
         if {a.sort, b.sort} <= {'int', 'bool'}:
             ai = a.t if a.sort == 'int' else z3.If(a.t, 1, 0); bi = b.t if b.sort == 'int' else z3.If(b.t, 1, 0)
